@@ -396,7 +396,7 @@ def AOpt.wf : AOpt → Bool
   | .proto n p _ hNum =>
     (match p with | .num d => canonNum d && !hNum | .vrrp | .ipv6icmp => !n.isNeg | _ => !hNum)
   | .sport ps _ _ | .dport ps _ _ => ps.wf
-  | .syn n _ => n                       -- only `! --syn` (the unnegated form is the excluded point F-C05s)
+  | .syn _ _ => true
   | .icmpType t => plainTok t && t.all (fun c => isDigit c || c == '/')
   | .mExplicit name => name = s "state" || lower name = s "tcp" || lower name = s "udp" || lower name = s "icmp"
   | .state l => !l.isEmpty && decide l.Nodup
